@@ -21,10 +21,19 @@ var (
 // seen meanwhile to the evidence counters (arrivals are not counted in
 // race-detector builds, see internal/verifhook/counting_race.go).
 func hookSchedule(c *Ctx, i int, names []string) func() {
+	return hookScheduleOpt(c, i, names, true)
+}
+
+// hookScheduleOpt with act=false only counts arrivals (no delays are injected).
+func hookScheduleOpt(c *Ctx, i int, names []string, act bool) func() {
 	hr := gen.New(gen.Mix(c.Seed, gen.HashString("hooks"), gen.HashString(c.Prop), uint64(c.Batch)), uint64(i)+1)
 	before := verifbridge.HookCounts()
 	sig := "none"
-	switch hr.Intn(5) {
+	k := hr.Intn(5)
+	if !act {
+		k = 0
+	}
+	switch k {
 	case 0, 1:
 	case 2:
 		sig = "yield_everywhere"
